@@ -11,10 +11,11 @@ import (
 )
 
 // streamOracles checks the recorded per-operator input streams (adapter boundary, recorded before HandleEvent):
-//   C04  per sender and operator: records arrive in read order; no watermark overtakes a record read before it
-//   C11  per sender and operator: watermarks never decrease; follow the forwarded timestamps closely (lower bound);
-//        never reach the largest timestamp keyed so far (upper bound, via the KeyEventBatch log)
-//   C16  barrier cut: records of split i before runner r's barrier N are exactly those with offset < the position r reported for N
+//
+//	C04  per sender and operator: records arrive in read order; no watermark overtakes a record read before it
+//	C11  per sender and operator: watermarks never decrease; follow the forwarded timestamps closely (lower bound);
+//	     never reach the largest timestamp keyed so far (upper bound, via the KeyEventBatch log)
+//	C16  barrier cut: records of split i before runner r's barrier N are exactly those with offset < the position r reported for N
 func (x *run) streamOracles(which string) {
 	stream := x.cl.Stream()
 	type sk struct{ op, sender string }
@@ -276,6 +277,58 @@ func c16Cut(c *lib.Ctx) {
 	c.SetSig(cks > 0, fmt.Sprintf("%+v", o), stops)
 	if c.Index < 3 {
 		c.Sample(map[string]any{"options": fmt.Sprintf("%+v", o), "checkpoint_positions": stops, "log": x.log})
+	}
+}
+
+// c16Bulk: reads that return hundreds to thousands of records at once (Kinesis GetRecords returns up to 10000).
+// The reader's cursor is past the whole read as soon as ReadEvents returns, so a checkpoint requested while the
+// runner is still emitting such a read must wait for all of it.
+func c16Bulk(c *lib.Ctx) {
+	o := pickOpts(c.R)
+	o.workers = 1 + c.R.Intn(2)
+	o.splits = 1 + c.R.Intn(2)
+	o.perSplit = 1500 + c.R.Intn(2500)
+	o.keyGroups = lib.Pick(c.R, []int{7, 256})
+	o.maxSize = lib.Pick(c.R, []int{8, 32})
+	o.timers, o.bulk = false, true
+	x := newRun(c, o)
+	defer x.close()
+	c.OnPanic = func() any { return x.wit() }
+	x.src.SetLimit(0)
+	x.start(0)
+	x.src.SetLimit(o.perSplit)
+	cks := 0
+	// checkpoints are requested while records are flowing: whenever the operators' streams have grown by a seeded amount
+	next := 50 + c.R.Intn(400)
+	deadline := time.Now().Add(cluster.Watchdog)
+	for !x.src.CaughtUp(func(r *cluster.VReader) bool { return x.cl.ReaderLive(r) }) && time.Now().Before(deadline) {
+		if len(x.cl.Stream()) >= next {
+			if x.checkpoint(10*time.Second) != nil {
+				cks++
+			}
+			next = len(x.cl.Stream()) + 100 + c.R.Intn(900)
+		} else {
+			time.Sleep(50 * time.Microsecond)
+		}
+	}
+	x.waitCaughtUp()
+	if x.checkpoint(cluster.Watchdog) == nil {
+		x.c.Inconclusive("the drain checkpoint was not published within the watchdog (job errors %v)", x.cl.JobErrors())
+	}
+	x.checkHandlers()
+	x.checkFinalState(o.perSplit)
+	x.streamOracles("C16")
+	c.Feat("checkpoints_published_during_bulk_reads", int64(cks))
+	big := 0
+	for _, n := range x.src.ReadSizes() {
+		if n > 512 {
+			big++
+		}
+	}
+	c.Feat("reads_of_more_than_512_records", int64(big))
+	c.SetSig(cks > 0 && big > 0, fmt.Sprintf("%+v", o), cks)
+	if c.Index < 2 {
+		c.Sample(map[string]any{"options": fmt.Sprintf("%+v", o), "checkpoints_during_flow": cks, "reads_over_512": big})
 	}
 }
 
